@@ -28,12 +28,12 @@ import (
 
 type Sys struct {
 	client *rpc2.Client // connection in whose name transactions are issued (nil: none)
-	DBS  *schemas.DB
-	Ref  *refmodel.Schema
-	DBM  model.DatabaseModel
-	DB   database.Database
-	Srv  *server.OvsdbServer
-	Name string
+	DBS    *schemas.DB
+	Ref    *refmodel.Schema
+	DBM    model.DatabaseModel
+	DB     database.Database
+	Srv    *server.OvsdbServer
+	Name   string
 }
 
 func New(dbs *schemas.DB) *Sys {
@@ -557,6 +557,12 @@ func (r *Recorder) Take() []Note {
 // monitor | monitor_cond | monitor_cond_since. Returns the recorder and the raw initial reply.
 func (s *Sys) AddMonitor(method, id string, req map[string]*ovsdb.MonitorRequest) (*Recorder, *rpc2.Client, json.RawMessage, error) {
 	rec, cl := NewRecorder()
+	return s.AddMonitorOn(rec, cl, method, id, req)
+}
+
+// AddMonitorOn registers one more monitor on a connection that already exists (its recorder then sees the notifications of
+// all its monitors; the first parameter of each tells them apart).
+func (s *Sys) AddMonitorOn(rec *Recorder, cl *rpc2.Client, method, id string, req map[string]*ovsdb.MonitorRequest) (*Recorder, *rpc2.Client, json.RawMessage, error) {
 	dbn, _ := json.Marshal(s.Name)
 	idj := json.RawMessage(id) // id is raw JSON (the monitor's json-value)
 	rq, err := json.Marshal(req)
